@@ -41,7 +41,7 @@ class Filter {
     if (variant_ == true)  // "true" means "allow recursively"
       return *this;
     JsonVariantConst member = variant_[key];
-    return Filter(member.isNull() ? variant_["*"] : member);
+    return Filter(member.isUnbound() ? variant_["*"] : member);
   }
 
  private:
